@@ -56,10 +56,10 @@ func gen(f vh.Flags, r *vrand.R, emit func(In)) {
 	for k := 0; k < n; k++ {
 		in := In{NIDs: r.Range(2, 5), NKeys: r.Range(1, 2), Mapping: "lean", Stores: allStores}
 		nsteps := r.Range(3, 8)
-		if k%8 == 7 {
-			in.Mapping = "full" // numeric terms, _all over every field, term vectors: ~4x the rows
+		if k%10 == 9 {
+			in.Mapping = "full" // numeric terms, _all over every field, term vectors: ~5x the rows
 			in.NIDs = r.Range(2, 3)
-			nsteps = r.Range(2, 4)
+			nsteps = r.Range(2, 3)
 		}
 		var ver int64
 		for i := 0; i < nsteps; i++ {
@@ -96,6 +96,7 @@ func leanMapping() mapping.IndexMapping {
 	body.Analyzer = "standard"
 	body.Store = true
 	body.IncludeTermVectors = false
+	body.IncludeInAll = false
 	dm.AddFieldMappingsAt("body", body)
 	tag := bleve.NewKeywordFieldMapping()
 	tag.Store = false
@@ -370,7 +371,8 @@ func (d *rawDump) addRow(key, val []byte, row upsidedown.UpsideDownCouchRow) err
 // ---------------------------------------------------------------- tokens
 
 type interner struct {
-	m map[string]int64
+	m       map[string]int64
+	clamped int
 }
 
 func (it *interner) tok(s string) int64 {
@@ -483,6 +485,21 @@ func sortStoredKeys(es []sentry) {
 	})
 }
 
+// pack writes up to four numbers below 10^4 as one decimal primitive-integer literal
+// (aaaabbbbccccdddd); a larger number is clamped to 9999, which no component legitimately has in
+// these histories (so the row cannot match the model) and is counted in the "clamped" bucket.
+func (it *interner) pack(xs ...uint64) cf.T {
+	var n uint64
+	for _, x := range xs {
+		if x > 9999 {
+			x = 9999
+			it.clamped++
+		}
+		n = n*10000 + x
+	}
+	return cf.T(strconv.FormatUint(n, 10) + "%uint63")
+}
+
 // render renders a dump as the Coq arguments "rows count" of mkDump.
 func render(d *rawDump, it *interner) string {
 	var rows []crow
@@ -508,30 +525,33 @@ func render(d *rawDump, it *interner) string {
 			for j, t := range e.terms {
 				ts[j] = i63s(t)
 			}
-			tts[i] = cf.Pair(i63s(e.field), lst("int", ts))
+			tts[i] = cf.App("TE", i63s(e.field), lst("int", ts))
 		}
 		sts := make([]cf.T, len(ses))
 		for i, e := range ses {
-			sts[i] = cf.Pair(i63s(e.field), posList(e.pos))
+			sts[i] = cf.App("SE", i63s(e.field), posList(e.pos))
 		}
 		id := it.id(b.id)
-		rows = append(rows, crow{[]int64{0, id}, cf.App("RBack", i63s(id), lst("(int * list int)", tts), lst("(int * list int)", sts))})
+		rows = append(rows, crow{[]int64{0, id}, cf.App("RB", i63s(id), lst("cte", tts), lst("cse", sts))})
 	}
 	for _, r := range d.dicts {
 		f, t := it.field(d, r.field), it.tok(r.term)
-		rows = append(rows, crow{[]int64{1, f, t}, cf.App("RDict", i63s(f), i63s(t), i63(r.count))})
+		rows = append(rows, crow{[]int64{1, f, t}, cf.App("RD", it.pack(uint64(f), uint64(t), r.count))})
 	}
 	for _, r := range d.ints {
+		if r.key == "_mapping" {
+			continue // written by bleve's index_impl when the index is created, not by the history
+		}
 		k := it.key(r.key)
-		rows = append(rows, crow{[]int64{2, k}, cf.App("RInternal", i63s(k), i63s(it.ival(r.val)))})
+		rows = append(rows, crow{[]int64{2, k}, cf.App("RI", it.pack(uint64(k), uint64(it.ival(r.val))))})
 	}
 	for _, r := range d.stored {
 		id, f := it.id(r.id), it.field(d, r.field)
-		rows = append(rows, crow{append([]int64{3, id, f}, posKey(r.pos)...), cf.App("RStored", i63s(id), i63s(f), posList(r.pos), i63s(it.tok(r.val)))})
+		rows = append(rows, crow{append([]int64{3, id, f}, posKey(r.pos)...), cf.App("RS", it.pack(uint64(id), uint64(f), uint64(it.tok(r.val))), posList(r.pos))})
 	}
 	for _, r := range d.terms {
 		f, t, id := it.field(d, r.field), it.tok(r.term), it.id(r.id)
-		rows = append(rows, crow{[]int64{4, f, t, id}, cf.App("RTerm", i63s(f), i63s(t), i63s(id), i63(r.freq))})
+		rows = append(rows, crow{[]int64{4, f, t, id}, cf.App("RT", it.pack(uint64(f), uint64(t), uint64(id), r.freq))})
 	}
 	sort.SliceStable(rows, func(i, j int) bool { return lessKey(rows[i].key, rows[j].key) })
 	ts := make([]cf.T, len(rows))
@@ -649,9 +669,9 @@ func renderDoc(rd *rawDoc, it *interner) cf.T {
 	for i, e := range fes {
 		ts := make([]cf.T, len(e.tfs))
 		for j, x := range e.tfs {
-			ts[j] = cf.Pair(i63s(x.t), i63s(x.f))
+			ts[j] = it.pack(uint64(x.t), uint64(x.f))
 		}
-		fts[i] = cf.Pair(i63s(e.field), lst("(int * int)", ts))
+		fts[i] = cf.App("DF", i63s(e.field), lst("int", ts))
 	}
 	type se struct {
 		k sentry
@@ -666,9 +686,9 @@ func renderDoc(rd *rawDoc, it *interner) cf.T {
 	})
 	sts := make([]cf.T, len(ses))
 	for i, s := range ses {
-		sts[i] = cf.Tuple(i63s(s.k.field), posList(s.k.pos), i63s(s.v))
+		sts[i] = cf.App("DS", it.pack(uint64(s.k.field), uint64(s.v)), posList(s.k.pos))
 	}
-	return cf.App("mkCDoc", lst("(int * list (int * int))", fts), lst("(int * list int * int)", sts))
+	return cf.App("mkCDoc", lst("cdf", fts), lst("cds", sts))
 }
 
 // ---------------------------------------------------------------- running one history
@@ -772,7 +792,7 @@ func exec(in In) vh.Result {
 				if err != nil {
 					return fail("analysis", err)
 				}
-				docs = append(docs, cf.Tuple(i63s(int64(o.ID)), i63s(o.Ver), renderDoc(rd, it)))
+				docs = append(docs, cf.App("DV", i63s(int64(o.ID)), i63s(o.Ver), renderDoc(rd, it)))
 			case "delete":
 				if upd[o.ID] > 0 {
 					delAfterUpd = true
@@ -834,7 +854,10 @@ func exec(in In) vh.Result {
 	if shrink {
 		h = append(h, "array-shrinks")
 	}
-	term := cf.App("CUdc", lst("(int * int * cdoc)", docs), lst("cstep", steps))
+	if it.clamped > 0 {
+		h = append(h, "clamped")
+	}
+	term := cf.App("CUdc", lst("cdv", docs), lst("cstep", steps))
 	return vh.Result{Term: term, Nontrivial: multi > 0 && delAfterUpd, Hist: h}
 }
 
@@ -846,11 +869,11 @@ func main() {
 		CheckFn:   "UpsidedownCorr.check",
 		ExplainFn: "UpsidedownCorr.explain",
 		Rule: "upsidedown row store: histories of 2-8 steps (batches of 0-5 Index/Delete/SetInternal/DeleteInternal ops, or the same ops issued singly) over 2-5 ids and 1-2 internal keys, " +
-			"documents with stored arrays of 0-3 elements (lean mapping; every 8th history the full sw mapping with numeric terms, _all and term vectors), " +
+			"documents with stored arrays of 0-3 elements (lean mapping without _all; every 10th history the full sw mapping with numeric terms, _all and term vectors), " +
 			"each history run on upsidedown over gtreap, boltdb, goleveldb and moss; after every step every row of the real index (back index, term frequency, stored, dictionary, internal) and DocCount() " +
 			"are compared with the Coq model's row store; the analysis result of each (id, version) is read off a scratch index holding that version alone; " +
 			"non-trivial: some id written at least twice and some previously written id deleted",
-		ShardSize: 13,
+		ShardSize: 10,
 		Workers:   6,
 		Preamble:  "From Coq Require Import Uint63.\n",
 	}, gen, exec)
